@@ -5,6 +5,7 @@ package main
 
 import (
 	"encoding/json"
+	"fmt"
 
 	sdkmath "cosmossdk.io/math"
 
@@ -67,7 +68,19 @@ func feesCase(app *fx.App, tr *fx.Trace, r *fx.Rng) {
 	for i := 0; i < nds; i++ {
 		fee := []int64{int64(r.PickInt(0, 0, 1, 7, 100)), int64(r.PickInt(0, 0, 0, 3))}
 		tre := r.PickInt(1, 2, 3, 1, 0)
-		id := ok.AddDataSource(ctx, oracletypes.NewDataSource(bandtesting.Owner.Address, "n", "d", bandtesting.DataSources[1].Filename, coinsOf(fee), accts[tre].Address))
+		var id oracletypes.DataSourceID
+		if r.Bool() {
+			// created by its owner through the real MsgCreateDataSource: "its treasury" is the one the message names
+			cm := oracletypes.NewMsgCreateDataSource("n", "d", []byte(fmt.Sprintf("#!/bin/sh\necho %d", i)), coinsOf(fee), accts[tre].Address,
+				bandtesting.Owner.Address, bandtesting.Owner.Address)
+			fx.Must(cm.ValidateBasic())
+			_, err := ms.CreateDataSource(ctx, cm)
+			fx.Must(err)
+			id = oracletypes.DataSourceID(ok.GetDataSourceCount(ctx))
+			tr.Tag("data-source-created-by-message")
+		} else {
+			id = ok.AddDataSource(ctx, oracletypes.NewDataSource(bandtesting.Owner.Address, "n", "d", bandtesting.DataSources[1].Filename, coinsOf(fee), accts[tre].Address))
+		}
 		dss = append(dss, dsT{fee, tre, id})
 	}
 	payerBal := []int64{int64(r.PickInt(0, 50, 1000, 100000)), int64(r.PickInt(0, 5, 100))}
